@@ -4,6 +4,10 @@ use crate::gen::GenCfg;
 use proptest::prelude::*;
 
 pub mod chan;
+pub mod condvar;
+pub mod mutex;
+pub mod rwlock;
+pub mod sem;
 pub mod timed;
 
 pub struct Family {
@@ -17,6 +21,10 @@ pub struct Family {
 pub const FAMILIES: &[Family] = &[
     Family { name: "chan", runtime: true, max_steps: 300_000, run: chan::run },
     Family { name: "timed", runtime: true, max_steps: 300_000, run: timed::run },
+    Family { name: "mutex", runtime: true, max_steps: 300_000, run: mutex::run },
+    Family { name: "sem", runtime: true, max_steps: 300_000, run: sem::run },
+    Family { name: "condvar", runtime: true, max_steps: 300_000, run: condvar::run },
+    Family { name: "rwlock", runtime: true, max_steps: 300_000, run: rwlock::run },
 ];
 
 pub fn lookup(name: &str) -> Option<&'static Family> {
@@ -47,6 +55,34 @@ fn chan_c07(g: &GenCfg) -> BoxedStrategy<Case> {
 }
 
 pub const PROPS: &[Prop] = &[
+    Prop {
+        id: "C05",
+        quick: 6000,
+        thorough: 200_000,
+        rule: "mutex family: 2-5 lockers (threads and coroutines mixed) with lock{0-2 schedule points inside}/try_lock/yield/sleep programs on one may::sync::Mutex, optional canceller actor cancelling coroutine lockers at generated times, generated schedule. Non-trivial = at least one pre-emption AND two lock() calls of different actors overlapped (contention). Distinct = distinct hash of (program, config, schedule).",
+        units: &[Unit { fam: "mutex", label: "mutex", share: 1, strategy: mutex::strategy }],
+    },
+    Prop {
+        id: "C10",
+        quick: 6000,
+        thorough: 200_000,
+        rule: "sem family: Semphore::new(0..2) or SyncFlag, 2-6 users (thread/coroutine) with wait/wait_timeout(d)/try_wait/post(fire)/is_fired programs, a final poster supplying enough permits for every waiting call, optional canceller, generated schedule with stall faults. Non-trivial = at least one pre-emption AND a post overlapped a blocking wait. Distinct = distinct hash of (program, config, schedule).",
+        units: &[Unit { fam: "sem", label: "sem", share: 1, strategy: sem::strategy }],
+    },
+    Prop {
+        id: "C11",
+        quick: 6000,
+        thorough: 200_000,
+        rule: "condvar family: (a) ticket protocol on Mutex+Condvar with wait/wait_timeout(gives up on time-out)/wait_while waiters and a notifier that grants exactly as many tickets as there are waiting calls, each followed by notify_one (the last optionally by notify_all), optional canceller; (b) Barrier(1-5) over 1-4 generations; (c) WaitGroup with 0-4 holders dropping/cloning at generated points and 1-2 waiters. Non-trivial = at least one pre-emption AND a notify overlapped a wait (a) / >= 2 parties (b) / a drop overlapped a wait (c). Distinct = distinct hash of (program, config, schedule).",
+        units: &[Unit { fam: "condvar", label: "condvar", share: 1, strategy: condvar::strategy }],
+    },
+    Prop {
+        id: "C12",
+        quick: 6000,
+        thorough: 200_000,
+        rule: "rwlock family: 1-5 lockers (thread/coroutine) with read/write/try_read/try_write/write+panic programs (guards recovered from PoisonError with into_inner and used normally), optional canceller, generated schedule. Non-trivial = (a pre-emption AND two successful lock calls of different actors overlapped) OR a guard was obtained from a Poisoned error and dropped. Distinct = distinct hash of (program, config, schedule).",
+        units: &[Unit { fam: "rwlock", label: "rwlock", share: 1, strategy: rwlock::strategy }],
+    },
     Prop {
         id: "C08",
         quick: 6000,
